@@ -33,7 +33,8 @@
    writers in flight).
    Inputs (oracles) of the model, carried by the labels: whether the memtable is full when a writer
    looks (approximate_size is a relaxed counter), file ids and sizes, which compaction runs and how
-   its outputs are cut (must be admissible: Lsm.History.acceptedb). *)
+   its outputs are cut (must be admissible: Lsm.Model.valid_compactionb, and the outputs the sorted
+   merge of the inputs: outputs_okb — what Lsm.History.acceptedb asks of an OCompact step). *)
 From Coq Require Import NArith List Bool Arith PArith FMapPositive.
 From Blue Require Import Gen.Const_Lsm Lsm.Model Lsm.History.
 Import ListNotations.
@@ -549,7 +550,7 @@ Definition step (st : state) (l : label) : option state :=
   (* ---------------------------------------------------------------- environment *)
   | LTrigger => guard (free st) (do_trigger st)      (* verif_request_flush: one critical section *)
   | LCompact c outs =>
-      guard (acceptedb (mkS [] (k_tree st) 0) (OCompact c outs))
+      guard (valid_compactionb (k_tree st) c && outputs_okb (k_tree st) c outs)
             (with_tree st (apply_compaction (k_tree st) c outs))
   end.
 
